@@ -297,6 +297,19 @@ func lifeExec(tr *vh.Transcript, ops []string) {
 			synctest.Wait()
 			s.miner.Send(`{"id":3,"method":"mining.authorize","params":["acct.rig7",""]}`)
 			after(op)
+		case "startbad": // a peer that is no stratum miner: it hangs up without a byte, or its first line is something else
+			s = newLifeSess(maxCached, idle, pools)
+			synctest.Wait()
+			switch f[1] {
+			case "hangup":
+				s.minerUp = false
+				s.miner.C.Close()
+			case "http":
+				s.miner.Send("GET / HTTP/1.1")
+			default:
+				s.miner.Send("\x16\x03\x01\x02\x00\x01") // a TLS hello
+			}
+			after(op)
 		case "start":
 			s = newLifeSess(maxCached, idle, pools)
 			synctest.Wait()
@@ -408,6 +421,9 @@ func lifeGen(r *vh.Rng) []string {
 	ops = append(ops, "pool pa reach=1 auth=1", fmt.Sprintf("pool pb reach=%d auth=%d", b2iLife(r.Bool(75)), b2iLife(r.Bool(85))), "pool pc reach=1 auth=1")
 	if r.Bool(8) {
 		return append(ops, "startfail "+vh.Pick(r, []string{"dial", "subscribe", "authorize"}), "advance 100", "advance 5000")
+	}
+	if r.Bool(6) {
+		return append(ops, "startbad "+vh.Pick(r, []string{"hangup", "http", "tls"}), "advance 100", "advance 5000")
 	}
 	ops = append(ops, "start")
 	if r.Bool(12) {
